@@ -359,7 +359,15 @@ func (ctx *Context) LoadNameWithDetail(name string, isRaw bool, useHook bool, de
 	// 先local再global
 	curCtx := ctx
 	for {
+		// 变量属于外层作用域时，计算类型是由外层 ctx 代为求值的：算力要接着读取者的计数继续算，
+		// 算完再记回读取者，否则这部分算力会在读取者返回时被覆盖丢失，也就绕过了算力上限
+		if curCtx != ctx && curCtx.NumOpCount < ctx.NumOpCount {
+			curCtx.NumOpCount = ctx.NumOpCount
+		}
 		ret := curCtx.LoadNameLocalWithDetail(name, isRaw, detail)
+		if curCtx != ctx && ctx.NumOpCount < curCtx.NumOpCount {
+			ctx.NumOpCount = curCtx.NumOpCount
+		}
 
 		if curCtx.Error != nil {
 			ctx.Error = curCtx.Error
